@@ -700,8 +700,36 @@ func (s *Storm) Run(clients, perClient int, faults bool) {
 			}
 		}()
 	}
-	if !waitDone(&cwg, 3*progressBound) {
+	// half of the storms: exec-model changes and queries in a tight loop next to the requests
+	var mstop int32
+	var mwg sync.WaitGroup
+	if s.r.Intn(2) == 0 {
+		mwg.Add(1)
+		seedM := s.r.Int63()
+		go func() {
+			defer mwg.Done()
+			mr := rand.New(rand.NewSource(seedM))
+			for n := 0; atomic.LoadInt32(&mstop) == 0 && n < 200000; n++ {
+				s.pool.SetExecModel(1 + mr.Intn(4))
+				if n%7 == 0 {
+					s.pool.GetRulesNumber()
+					s.pool.IsExist([]string{"q1", "nope"})
+				}
+				if n%64 == 0 {
+					runtime.Gosched()
+				}
+			}
+		}()
+		k.Count("storms_with_management_loop", 1)
+	}
+	stormOK := waitDone(&cwg, 3*progressBound)
+	atomic.StoreInt32(&mstop, 1)
+	if !stormOK {
 		s.find("cap", "storm-stuck", "the request storm did not complete within the progress bound", dump())
+		return
+	}
+	if !waitDone(&mwg, progressBound) {
+		s.find("cap", "management-stuck", "a SetExecModel / query loop running next to the requests did not come back within the progress bound", dump())
 		return
 	}
 	s.faults = false
